@@ -4,10 +4,10 @@ from harness.props import sysbase as B
 
 ID = "C02"
 THEOREM_FILE = "Properties/C02.v"
-COQ_PROP_OK = "(fun c => C02_ok (s_complete (fst c)) (snd c))"
+COQ_PROP_OK = "(fun c => C02_ok (s_complete (fst c)) (snd c) && C02_withdrawn (snd c))"
 RULE = ("seeded whole-system runs ending by a shutdown command at a random position of a pause/resume/save history (incl. while paused, right after a pause request, back to back), "
         "by the uptime limit, or by a KeyboardInterrupt at a random control tick or before a random synchronisation operation of the control loop (anywhere but in the worker-pool section of try_pause and inside a state save); random step/training/hook durations; random and PCT schedules. 30% of the runs use a time scale of 2, 4, 10 or 1/2, 15% have no trainer at all (these are judged by the harness-side clauses only: the thread model describes a training thread with trainers). Checked per run: launch() returned, no deadlock, a pause attempt that fails has waited the configured timeout in real seconds, "
-        "both threads exited, final state after the last callback, clock running at scale 1, and a pause attempt fails only if a callback was still in flight when its timeout fired. "
+        "both threads exited, final state after the last callback, clock running at scale 1, a pause attempt fails only if a callback was still in flight when its timeout fired, and whenever a control tick begins the resume event is set or the pause was acknowledged (C02_withdrawn: an abandoned pause request is withdrawn). "
         "30% of the runs ended by a command or the uptime limit get a keyboard interrupt in the middle of that shutdown. Non-trivial = the shutdown (or interrupt / uptime) arrived while the system was paused or a pause was in flight; distinct = canonical JSON.")
 TRUSTED = B.TRUSTED_SYS
 ASSUMPTIONS = B.ASSUMPTIONS_SYS + ["'bounded time' is proved as a bound on own operations (no blocking wait among them); the harness reports the virtual seconds it measured"]
